@@ -132,7 +132,8 @@ def check_order(run):
         return
 
     def report(name, model, what, args):
-        data = {"kind": "order", "what": what, "theories": {k: model_theory(model, k) for k in args}}
+        data = {"kind": "order", "what": what, "theories": {k: model_theory(model, k) for k in args},
+                "qf": {k: bool(z3.is_true(model.eval(z3.Bool("qf." + k), model_completion=True))) for k in args}}
         run.violation(fam, name, data, "order/" + what, "%s fails for %s" % (what, data["theories"]), queries=1)
 
     obligations = [
@@ -211,6 +212,11 @@ def replay_order(data):
     th = {k: mk(v) for k, v in data["theories"].items()}
     a, b, c = th.get("a"), th.get("b"), th.get("c")
     w = data["what"]
+    qf = data.get("qf", {})
+    flags = lambda t: {f: bool(getattr(t, f)) for f in FLAGS}
+    invp = lambda t: (not t.integer_difference or t.integer_arithmetic) and (not t.real_difference or t.real_arithmetic) \
+        and (not t.arrays_const or t.arrays)
+    lgc = lambda t, q: lg.Logic("L", "", quantifier_free=q, theory=t)
     cov = lambda big, small: (all((not getattr(small, f)) or getattr(big, f) for f in
                                   ("arrays", "arrays_const", "bit_vectors", "floating_point", "integer_arithmetic",
                                    "real_arithmetic", "uninterpreted", "custom_type", "strings"))
@@ -227,8 +233,33 @@ def replay_order(data):
         "combine-covers-right": lambda: cov(a.combine(b), b),
         "combine-idempotent": lambda: a.combine(a) == a,
         "le-implies-covers": lambda: not (a <= b) or cov(b, a),
-        "copy-equal": lambda: a.copy() == a,
+        "copy-equal": lambda: a.copy() == a and flags(a.copy()) == flags(a),
+        "eq-is-flag-equality": lambda: (a == b) == (flags(a) == flags(b)),
+        "combine-keeps-invariant": lambda: invp(a.combine(b)),
+        "set_difference_logic(False)-clears": lambda: not a.set_difference_logic(False).integer_difference
+        and not a.set_difference_logic(False).real_difference,
+        "set_difference_logic(False)-covers": lambda: cov(a.set_difference_logic(False), a),
+        "logic-reflexive": lambda: lgc(a, qf["a"]) <= lgc(a, qf["a"]),
+        "logic-antisymmetric": lambda: not (lgc(a, qf["a"]) <= lgc(b, qf["b"]) and lgc(b, qf["b"]) <= lgc(a, qf["a"]))
+        or (flags(a) == flags(b) and qf["a"] == qf["b"]),
+        "logic-transitive": lambda: not (lgc(a, qf["a"]) <= lgc(b, qf["b"]) and lgc(b, qf["b"]) <= lgc(c, qf["c"]))
+        or lgc(a, qf["a"]) <= lgc(c, qf["c"]),
+        "logic-le-needs-quantifiers": lambda: not (lgc(a, qf["a"]) <= lgc(b, qf["b"]) and not qf["a"]) or not qf["b"],
     }
+    setters = {"set_lira": ({}, {"integer_arithmetic": True, "real_arithmetic": True}), "set_linear": ({"value": False}, {"linear": False}),
+               "set_strings": ({}, {"strings": True}), "set_arrays": ({}, {"arrays": True}),
+               "set_arrays_const": ({}, {"arrays": True, "arrays_const": True})}
+    for sname, (kw, changed) in setters.items():
+        def res(sname=sname, kw=kw):
+            return getattr(a, sname)(**kw)
+
+        def expd(changed=changed):
+            d = flags(a)
+            d.update(changed)
+            return d
+        checks[sname + "-result"] = lambda res=res, expd=expd: flags(res()) == expd()
+        checks[sname + "-keeps-invariant"] = lambda res=res: invp(res())
+        checks[sname + "-covers-original"] = lambda res=res: cov(res(), a)
     if w in checks:
         try:
             ok = checks[w]()
